@@ -315,6 +315,13 @@ def corpus(ck):
     A("equal_length_sequences", [fa([("s%d" % i, "ACGT"[i % 4] + "ACGTACGTAC") for i in range(8)])])
     A("identical_100", [fa([("s%d" % i, "MKVLDEFWHIKLMPQRS") for i in range(100)])])
     A("two_single_residue", [b">a\nA\n>b\nC\n"])
+    # record counts around the growth steps of the sequence table (512, 1024), in each input format
+    for nrec in (512, 513, 1025):
+        fam_ = gen.family(rr, nrec, 14, gen.AA, "random", 0.2, 0.0, 1)
+        w_ = max(len(x) for x in fam_)
+        rows_ = [("m%d" % i, x[:w_].ljust(w_, "-")) for i, x in enumerate(fam_)]
+        A("msf_input_%d_records" % nrec, [fmt.write_msf(rows_, protein=True).encode()])
+        A("clustal_input_%d_records" % nrec, [fmt.write_clustal(rows_).encode()])
     A("long_vs_short_500", [fa([("a", "ACGT" * 150), ("b", "ACGTAC" * 90), ("c", "AC")])], ["-n", "4"])
     return C
 
